@@ -66,6 +66,22 @@ def h(v) -> None:
 t = 1 + 1
 u = 10 * 10 * 10
 ''',
+    'positional-only parameters with long names': '''
+def clamp(value_to_clamp, lower_bound, upper_bound, /):
+    if value_to_clamp < lower_bound:
+        return lower_bound
+    if value_to_clamp > upper_bound:
+        return upper_bound
+    return value_to_clamp
+def scale(values_to_scale, scale_factor, /, *, offset=0):
+    return [each_value * scale_factor + offset for each_value in values_to_scale]
+class Accumulator:
+    def __init__(self, initial_total, /):
+        self.total = initial_total
+    def add(self, amount_to_add, /):
+        self.total = self.total + amount_to_add
+        return self.total
+''',
     'class attributes, globals, nonlocal': '''
 counter_value = 0
 def bump():
@@ -123,9 +139,7 @@ def run(model, rep, rule='C17.E2E', tier='quick'):
     for o in names:
         d = mi.defaults().get(o)
         defaults[o] = d.value if isinstance(d, ast.Constant) and isinstance(d.value, bool) else True
-    contexts = [('every other option off', {o: False for o in names})]
-    if tier == 'thorough':
-        contexts.append(('every other option at its default', dict(defaults)))
+    contexts = [('every other option off', {o: False for o in names}), ('every other option at its default', dict(defaults))]
     shorter = 0
     cache = {}
 
@@ -141,6 +155,8 @@ def run(model, rep, rule='C17.E2E', tier='quick'):
             rep.note('%s: this interpreter cannot parse the probe %r' % (rule, label))
             continue
         for cname, base in contexts:
+            if cname != 'every other option off' and tier != 'thorough' and not (label in ADVERSARIAL or label == 'work for every transform'):
+                continue      # quick tier: interactions with the other default options on the adversarial probes only
             worse = []
             for opt in SIZE_OPTIONS:
                 off, err0 = size(source, dict(base, **{opt: False}))
